@@ -31,6 +31,9 @@ CLAIMS = {
     'C15': ('proof', 'Verus proof that analyze(ops) is exactly the union of the effect flags present (all slices); the bitflags API by a complete Kani proof; bytes_contains_any (outside Verus) only bounded: Kani on all well-formed byte strings up to 20 bytes x all effect sets'),
 }
 
+CLAIMS['C17'] = ('other', 'partial, Verus: the set address sorts its address slice in place (permutation) and sorted arrangements are unique => order independence; '
+                 'from_solution_addrs, from_predicate_addrs, Program/Solution address impls and Predicate::encode delegation verified against spec functions over uninterpreted SHA-256/postcard; '
+                 'predicate_encoded_size == documented size. Assumed (listed in evidence): Map/chain adapters feeding the hasher, encode_predicate layout, contract address slice function')
 NA = {
     'C02': 'thread schedules: no contract on the real functions can quantify over interleavings (Kani has no threads; Verus would need a rewritten model of the rayon code)',
     'C19': 'cryptographic binding lives in FFI C (secp256k1-sys) outside both verifiers; the in-repo glue is covered under C17',
